@@ -368,8 +368,8 @@ pub(crate) fn families(tier: Tier) -> Vec<Family> {
     let thorough = tier == Tier::Thorough;
     let limit = smoltcp::config::ASSEMBLER_MAX_SEGMENT_COUNT;
     let mut v = vec![];
-    let plain_max = if thorough { 6 } else { 4 };
-    let dup_max = if thorough { 5 } else { 4 };
+    let plain_max = if thorough { 7 } else { 5 };
+    let dup_max = if thorough { 6 } else { 4 };
     let one = |class: &'static str, raw: bool, eth: bool, total: usize, cuts: Vec<(usize, usize)>, items: Vec<(u8, u8)>, what: String| Family {
         class,
         raw,
@@ -410,7 +410,9 @@ pub(crate) fn families(tier: Tier) -> Vec<Family> {
     if rbs >= 600 {
         let fit = (rbs - 20) / 8 * 8; // largest 8-aligned payload that fits with its header
         let piece = (fit / 3) / 8 * 8;
-        for total in [fit, rbs - 20, rbs - 20 + 8, 2 * rbs] {
+        let mut totals = vec![fit, rbs - 20, rbs - 20 + 8, 2 * rbs];
+        totals.dedup();
+        for total in totals {
             let c = even_cuts(total, piece.max(8));
             if c.len() > 7 {
                 continue;
